@@ -44,6 +44,8 @@ def split_waterfall_generator(waterfall_fn, fchans, tchans=None, f_shift=None):
 
     if f_shift is None:
         f_shift = fchans
+    # Python integers: window positions computed in a numpy fixed-width type wrap around
+    fchans, f_shift = int(fchans), int(f_shift)
 
     if tchans is None:
         tchans = tchans_tot
@@ -160,6 +162,11 @@ def split_array(data, f_sample_num=None, t_sample_num=None,
         t_shift = t_sample_num
     elif t_shift <= 0:
         raise ValueError(f"Invalid y-direction shift: {t_shift}")
+
+    # Python integers: with numpy fixed-width sizes or shifts the window positions wrap around 
+    # (and the loops below never reach the edge of the array)
+    f_sample_num, t_sample_num = int(f_sample_num), int(t_sample_num)
+    f_shift, t_shift = int(f_shift), int(t_shift)
 
     # Save first frame, regardless of overstepping bounds
     y_start = 0
